@@ -127,16 +127,27 @@ func VH06a_sub() {
 		if fixed >= 0 {
 			return rs[fixed]
 		}
-		return rs[verif.Choice("ctx", 2)]
+		return rs[verif.Choice("ctx", len(rs))]
 	}
 	for e := 0; e < E; e++ {
 		var ev int
 		if script != nil {
 			ev = script[e]
 		} else {
-			ev = verif.Choice("ev", 4)
+			ev = verif.Choice("ev", 5)
 		}
 		switch ev {
+		case 4: // a further context is opened in the middle of things: no subscriptions, empty queue of the inherited length
+			if len(rs) >= 3 {
+				verif.Assume(false)
+			}
+			cn, oerr := sock.OpenContext()
+			verif.Assert(oerr == nil, lab+"/open-context-later")
+			if oerr != nil {
+				return
+			}
+			rs = append(rs, &subref{name: "late-ctx", c: cn, qlen: qlen})
+			verif.Reach("late-context")
 		case 0: // subscribe
 			r := pick()
 			t := verif.Bytes("topic", verif.Choice("tlen", TL+1))
@@ -215,6 +226,11 @@ func VH06b_pub() {
 	if stalled {
 		pipes[1].SendMode = vt.SendBlock
 	}
+	// the option may change after the subscribers connected (documented: affects later connections only):
+	// idle subscribers must not notice
+	if nq := verif.Choice("wqlen-later", 4); nq < 3 {
+		verif.Assert(sock.SetOption(mangos.OptionWriteQLen, nq) == nil, lab+"/set-wqlen-later")
+	}
 	var bodies [][]byte
 	for i := 0; i < N; i++ {
 		b := verif.Bytes("body", 1+verif.Choice("blen", 2))
@@ -248,7 +264,8 @@ func VH06b_pub() {
 			verif.Assert(found, lab+"/subscriber-got-something-not-published-or-out-of-order")
 		}
 		full := !(stalled && pi == 1)
-		if full && ql > 0 {
+		if full {
+			// also with WRITEQ-LEN 0: an idle subscriber's sender is waiting for the hand-off, nothing is lost
 			verif.Assert(len(p.Sent) == N, lab+"/subscriber-with-room-missed-a-message")
 		}
 		if full {
